@@ -7,8 +7,8 @@ Record mcase := mkMC {
   mc_faces : list face;
   mc_open : list edge;                 (* get_open_edges(faces), rows in order *)
   mc_subsets : list (list face);       (* get_disconnected_faces_subsets(faces), in order *)
-  mc_oracle : list bool;               (* recorded is_facet_inwards results, call order *)
-  mc_calls : list nat;                 (* number of remaining faces at each call *)
+  mc_oracle : list (face * bool);      (* recorded is_facet_inwards results: seed face (vertex ids) -> answer *)
+  mc_calls : list (face * nat);        (* per call, in order: seed face, number of faces the test ran against *)
   mc_mask : list bool;                 (* get_inwards_mask *)
   mc_fixed : list face;                (* fix_trimesh_orientation (TriangularMesh.faces when the class was built) *)
   mc_status_open : bool;               (* TriangularMesh.status_open after check_open *)
@@ -27,13 +27,22 @@ Fixpoint list_eqb {A} (eqb : A -> A -> bool) (l1 l2 : list A) : bool :=
 
 (* bit 1: open edges differ, 2: subsets differ, 4: oracle calls differ, 8: mask differs, 16: fixed faces differ,
    32: status_open differs, 64: status_disconnected differs *)
+(* the recorded seed test as a function of the seed face (unrecorded faces: false) *)
+Fixpoint lookup_face (l : list (face * bool)) (f : face) : bool :=
+  match l with
+  | [] => false
+  | (g, b) :: r => if face_eqb g f then b else lookup_face r f
+  end.
+
+Definition call_eqb (a b : face * nat) : bool := face_eqb (fst a) (fst b) && Nat.eqb (snd a) (snd b).
+
 Definition check_mcase (c : mcase) : Z :=
   let fs := mc_faces c in
-  let st := pfinal fs (mc_oracle c) in
+  let st := pfinal fs (lookup_face (mc_oracle c)) in
   ((if list_eqb edge_eqb (get_open_edges fs) (mc_open c) then 0 else 1)
    + (if list_eqb (list_eqb face_eqb) (get_disconnected_faces_subsets fs) (mc_subsets c) then 0 else 2)
-   + (if list_eqb Nat.eqb (map snd (rev (p_calls st))) (mc_calls c)
-         && Nat.eqb (length (p_oracle st)) 0 then 0 else 4)
+   + (if list_eqb call_eqb (map (fun sn => (nth (fst sn) fs dface, snd sn)) (rev (p_calls st))) (mc_calls c)
+     then 0 else 4)
    + (if list_eqb Bool.eqb (p_mask st) (mc_mask c) then 0 else 8)
    + (if list_eqb face_eqb (apply_mask fs (p_mask st)) (mc_fixed c) then 0 else 16)
    + (if Bool.eqb (status_open fs) (mc_status_open c) then 0 else 32)
